@@ -18,7 +18,7 @@
 (* exact rationals (module Q); the root's centre frequency is 0.  The      *)
 (* replayer maps ticks and frequency units to real seconds / Hz.           *)
 (***************************************************************************)
-EXTENDS Integers, Sequences, FiniteSets, TLC, Randomization, PySlice, Q
+EXTENDS Signals, TLC, Randomization
 
 CONSTANTS
   RootLens,     \* lengths of the root signal
@@ -44,50 +44,8 @@ CONSTANTS
 VARIABLES root, cur, hist, st, chk
 vars == <<root, cur, hist, st, chk>>
 
-IsRadio(c) == c # "Signal"
-IsBaseband(c) == c \in {"BasebandSignal", "DualPolarizationSignal"}
-NormAlign(al, n) == IF n % 2 = 1 THEN "center" ELSE al
-A2(al) == CASE al = "bottom" -> 0 [] al = "center" -> 1 [] al = "top" -> 2
-
-\* channel label i (0-based) by the documented band model
-Label(s, i) == QAdd(s.cf, QMul(s.cbw, Qn(2 * i + A2(s.align) - s.nchan, 2)))
-MinFreq(s) == QSub(s.cf, QMul(s.cbw, Qn(s.nchan, 2)))
-MaxFreq(s) == QAdd(s.cf, QMul(s.cbw, Qn(s.nchan, 2)))
-
-MkRoot(c, n, ht, nc, al) ==
-  [cls |-> c, len |-> n, hasT |-> ht, t0 |-> 0, per |-> 4,
-   nchan |-> IF IsRadio(c) THEN nc ELSE 0, cf |-> QI(0), cbw |-> QI(1),
-   align |-> IF IsRadio(c) THEN NormAlign(al, nc) ELSE "center",
-   k0 |-> 0, stride |-> 1, dly |-> 0, clo |-> 0]
-
 Roots == {MkRoot(c, n, ht, nc, al) :
             c \in Classes, n \in RootLens, ht \in BOOLEAN, nc \in NChans, al \in Aligns}
-
-(***************************************************************************)
-(* Operations, as the code performs them                                   *)
-(***************************************************************************)
-\* Signal._time_slice + data[index] + like()
-TimeSliceRec(s, a, b, c) ==
-  LET ix == Indices(a, b, c, s.len)
-      S  == Select(a, b, c, s.len)
-  IN [s EXCEPT
-        !.len = Cardinality(S),
-        !.t0 = IF s.hasT THEN s.t0 + ix.start * s.per ELSE 0,
-        !.per = s.per * ix.step,
-        !.cbw = IF IsBaseband(s.cls) THEN QDiv(s.cbw, QI(ix.step)) ELSE s.cbw,
-        !.k0 = IF S = {} THEN s.k0 + ix.start * s.per ELSE s.k0 + SetMin(S) * s.per,
-        !.stride = s.stride * ix.step]
-
-\* RadioSignal._freq_slice (refuses empty ranges)
-FreqSliceOK(s, a, b) == LET ix == Indices(a, b, None, s.nchan) IN ix.stop > ix.start
-FreqSliceRec(s, a, b) ==
-  LET ix == Indices(a, b, None, s.nchan)
-      n  == ix.stop - ix.start
-  IN [s EXCEPT
-        !.cf = QHalf(QAdd(Label(s, ix.start), Label(s, ix.stop - 1))),
-        !.align = "center",
-        !.nchan = n,
-        !.clo = s.clo + ix.start]
 
 \* time_shift(z, q/4, crop=True) for a scalar shift of q quarter samples
 ShiftWindow(s, q) ==
